@@ -19,12 +19,17 @@ def run(F, rep):
     rep.run(dt_compress.extender_table, F, rep, "C02.3", graph_route=True)
     rep.run(dt_compress.hash_builder_table, F, rep, "C02.3")
     rep.run(dt_compress.graph_builder_table, F, rep, "C02.3")
+    # ... and the three private functions of the graph route interpreted together on scripted lines of nodes
+    rep.run(dt_compress.graph_chain_table, F, rep, "C02.3")
     rep.run(dt_compress.hash_driver_table, F, rep, "C02.3")
     rep.run(dt_compress.graph_driver_table, F, rep, "C02.3")
     # the pruning the graph route relies on before it walks (a pruned real link hides a branch)
     rep.run(dt_graph.get_valid_exts_table, F, rep, "C02.4")
     rep.run(dt_graph.fix_exts_table, F, rep, "C02.4")
     rep.run(dt_graph.censor_tables, F, rep, "C02.4")
+    # the graph route resolves every link through the two end indices of the finished graph (a node end that is not indexed is a link lost)
+    rep.run(dt_graph.finish_tables, F, rep, "C02.4")
+    rep.run(dt_graph.find_link_table, F, rep, "C02.4")
     rep.run(common.run_kmer_lemmas, F, rep, {"canon"})
     rep.run(lemmas.exts_lemmas, F, rep)
     # "the sole extension on both facing sides" is about the extensions observed in the reads: both summarizers must hand every
@@ -32,3 +37,5 @@ def run(F, rep):
     rep.run(dt_filter.summarizer_tables, F, rep, "C02.5")
     # both routes read the terminal k-mers of nodes / the k-mers of the store through Vmer::get_kmer on views of the packed store
     rep.run(common.run_store_kmer_lemmas, F, rep, "C02.6")
+    # the entry point that finds the extensions itself: "the sole extension on both facing sides" is decided on the bytes it computes
+    rep.run(dt_compress.entry_points_table, F, rep, "C02.7")
